@@ -26,6 +26,7 @@ import (
 	"go.minekube.com/gate/pkg/edition/java/proto/version"
 	"go.minekube.com/gate/pkg/edition/java/proxy/phase"
 	"go.minekube.com/gate/pkg/gate/proto"
+	"go.minekube.com/gate/pkg/internal/verifhook"
 
 	"go.minekube.com/gate/pkg/edition/java/config"
 	"go.minekube.com/gate/pkg/edition/java/forge"
@@ -64,7 +65,9 @@ func (p *players) Range(fn func(p Player) bool) {
 	p.mu.RLock()
 	list := p.list
 	p.mu.RUnlock()
+	verifhook.Point("list.range.iter")
 	for _, player := range list {
+		verifhook.Point("list.range.step")
 		if !fn(player) {
 			return
 		}
@@ -85,7 +88,9 @@ func PlayersToSlice[R any](p Players) []R {
 }
 
 func (p *players) add(players ...*connectedPlayer) {
+	verifhook.Point("sp.add.enter")
 	p.mu.Lock()
+	verifhook.Point("sp.add.locked")
 	for _, player := range players {
 		p.list[player.ID()] = player
 	}
@@ -93,7 +98,9 @@ func (p *players) add(players ...*connectedPlayer) {
 }
 
 func (p *players) remove(players ...*connectedPlayer) {
+	verifhook.Point("sp.remove.enter")
 	p.mu.Lock()
+	verifhook.Point("sp.remove.locked")
 	for _, player := range players {
 		delete(p.list, player.ID())
 	}
